@@ -419,36 +419,106 @@ struct SQueue : Subject {
 
 // ------------------------------------------------------------------ S4: heterogeneous list / dispatcher
 typedef eventpp::HeterTuple<void(int), void(const std::string &)> HT;
+struct FCbS {      // a callback that only matches the second prototype, void(const std::string &)
+	FCb inner;
+	explicit FCbS(int i) : inner(i) {}
+	void operator()(const std::string & s) const { inner(s); }
+};
 template <typename Th>
 struct SHeter : Subject {
 	typedef eventpp::HeterCallbackList<HT, P<Th> > L;
 	typedef eventpp::HeterEventDispatcher<int, HT, P<Th> > D;
-	L * a = nullptr, * other = nullptr; D * d = nullptr;
-	std::vector<int> ma, mother, md;
+	L * a = nullptr, * other = nullptr; D * d = nullptr, * dother = nullptr;
+	// per prototype slot: [0] = void(int), [1] = void(const std::string &)
+	std::vector<int> ma[2], mother[2], md[2], mdother[2];
 	int nextId = 100;
 	using Subject::Subject;
-	void build() override { a = new L(); other = new L(); d = new D(); ma.clear(); md.clear(); mother.clear(); nextId = 100; other->append(FCb(1)); mother.push_back(1); }
-	void destroy() override { delete a; delete other; delete d; a = other = nullptr; d = nullptr; }
-	int menu() override { return 6; }
+	void build() override {
+		a = new L(); other = new L(); d = new D(); dother = new D(); nextId = 100;
+		for(int i = 0; i < 2; ++i) { ma[i].clear(); mother[i].clear(); md[i].clear(); mdother[i].clear(); }
+		// the source of the copies holds callbacks of BOTH prototypes, so that a copy has several slots to clone
+		other->append(FCb(1)); mother[0].push_back(1); other->append(FCbS(2)); mother[1].push_back(2); other->append(FCbS(3)); mother[1].push_back(3);
+		dother->appendListener(3, FCb(4)); mdother[0].push_back(4); dother->appendListener(3, FCbS(5)); mdother[1].push_back(5);
+	}
+	void destroy() override { delete a; delete other; delete d; delete dother; a = other = nullptr; d = dother = nullptr; }
+	int menu() override { return 10; }
+	static std::vector<int> both(const std::vector<int> * m) { std::vector<int> r = m[0]; r.insert(r.end(), m[1].begin(), m[1].end()); return r; }
+	template <typename O> std::vector<int> showList(O & o) { std::vector<int> seen; g_seen = &seen; o(1); o(std::string("s")); g_seen = nullptr; return seen; }
+	template <typename O> std::vector<int> showDisp(O & o) { std::vector<int> seen; g_seen = &seen; o.dispatch(3, 1); o.dispatch(3, std::string("s")); g_seen = nullptr; return seen; }
 	void op(Bfs & b, int o) override {
-		if(o == 0) { if(ma.size() >= 2) b.skip(); int id = nextId++; FCb cb(id); ctx.log(fmt("HeterCallbackList append -> #%d", id)); if(attempt(ctx, "HeterCallbackList::append", [&]() { a->append(cb); }) == O_DONE) ma.push_back(id); return; }
-		if(o == 1) { ctx.log("HeterCallbackList copy assignment"); if(attempt(ctx, "HeterCallbackList copy assignment", [&]() { *a = *other; }) == O_DONE) ma = mother; return; }
-		if(o == 2) { ctx.log("HeterCallbackList copy construction"); std::vector<int> seen; Outcome r = attempt(ctx, "HeterCallbackList copy construction", [&]() { L tmp(*a); fctl().armed = false; g_seen = &seen; tmp(1); g_seen = nullptr; }); g_seen = nullptr; if(r == O_DONE && seen != ma) ctx.fail("content-differs", "a fresh heterogeneous copy differs from its source"); return; }
-		if(o == 3) { std::vector<int> seen; g_seen = &seen; ctx.log("HeterCallbackList invoke"); Outcome r = attempt(ctx, "HeterCallbackList invocation", [&]() { (*a)(1); }); g_seen = nullptr; if(r == O_DONE && seen != ma) ctx.fail("content-differs", fmt("invocation called %s, model %s", vec(seen).c_str(), vec(ma).c_str())); return; }
-		if(o == 4) { if(md.size() >= 2) b.skip(); int id = nextId++; FCb cb(id); ctx.log(fmt("HeterEventDispatcher appendListener -> #%d", id)); if(attempt(ctx, "HeterEventDispatcher::appendListener", [&]() { d->appendListener(3, cb); }) == O_DONE) md.push_back(id); return; }
-		std::vector<int> seen; g_seen = &seen; ctx.log("HeterEventDispatcher dispatch"); Outcome r = attempt(ctx, "HeterEventDispatcher::dispatch", [&]() { d->dispatch(3, 1); }); g_seen = nullptr; if(r == O_DONE && seen != md) ctx.fail("content-differs", fmt("dispatch called %s, model %s", vec(seen).c_str(), vec(md).c_str()));
+		if(o == 0 || o == 6) {
+			int slot = o == 0 ? 0 : 1;
+			if(ma[0].size() + ma[1].size() >= 2) b.skip();
+			int id = nextId++; ctx.log(fmt("HeterCallbackList append (prototype %d) -> #%d", slot, id));
+			Outcome r;
+			if(slot == 0) { FCb cb(id); r = attempt(ctx, "HeterCallbackList::append", [&]() { a->append(cb); }); }
+			else { FCbS cb(id); r = attempt(ctx, "HeterCallbackList::append", [&]() { a->append(cb); }); }
+			if(r == O_DONE) ma[slot].push_back(id);
+			return;
+		}
+		if(o == 1) { ctx.log("HeterCallbackList copy assignment"); if(attempt(ctx, "HeterCallbackList copy assignment", [&]() { *a = *other; }) == O_DONE) { ma[0] = mother[0]; ma[1] = mother[1]; } return; }
+		if(o == 2) {
+			ctx.log("HeterCallbackList copy construction"); std::vector<int> seen;
+			Outcome r = attempt(ctx, "HeterCallbackList copy construction", [&]() { L tmp(*a); fctl().armed = false; seen = showList(tmp); });
+			g_seen = nullptr;
+			if(r == O_DONE && seen != both(ma)) ctx.fail("content-differs", fmt("a fresh heterogeneous copy calls %s, the source holds %s", vec(seen).c_str(), vec(both(ma)).c_str()));
+			return;
+		}
+		if(o == 3 || o == 7) {
+			int slot = o == 3 ? 0 : 1;
+			std::vector<int> seen; g_seen = &seen; ctx.log(fmt("HeterCallbackList invoke (prototype %d)", slot));
+			Outcome r = attempt(ctx, "HeterCallbackList invocation", [&]() { if(slot == 0) (*a)(1); else (*a)(std::string("s")); });
+			g_seen = nullptr;
+			if(r == O_DONE && seen != ma[slot]) ctx.fail("content-differs", fmt("invocation called %s, model %s", vec(seen).c_str(), vec(ma[slot]).c_str()));
+			return;
+		}
+		if(o == 4 || o == 8) {
+			int slot = o == 4 ? 0 : 1;
+			if(md[0].size() + md[1].size() >= 2) b.skip();
+			int id = nextId++; ctx.log(fmt("HeterEventDispatcher appendListener (prototype %d) -> #%d", slot, id));
+			Outcome r;
+			if(slot == 0) { FCb cb(id); r = attempt(ctx, "HeterEventDispatcher::appendListener", [&]() { d->appendListener(3, cb); }); }
+			else { FCbS cb(id); r = attempt(ctx, "HeterEventDispatcher::appendListener", [&]() { d->appendListener(3, cb); }); }
+			if(r == O_DONE) md[slot].push_back(id);
+			return;
+		}
+		if(o == 9) {
+			// copy assignment of a heterogeneous dispatcher: destination valid (not necessarily unchanged), source untouched, no leak
+			ctx.log("HeterEventDispatcher copy assignment");
+			Outcome r = attempt(ctx, "HeterEventDispatcher copy assignment", [&]() { *d = *dother; });
+			if(r == O_DONE) { md[0] = mdother[0]; md[1] = mdother[1]; }
+			else adoptDispatcher();
+			return;
+		}
+		std::vector<int> seen; g_seen = &seen; ctx.log("HeterEventDispatcher dispatch"); Outcome r = attempt(ctx, "HeterEventDispatcher::dispatch", [&]() { d->dispatch(3, 1); }); g_seen = nullptr;
+		if(r == O_DONE && seen != md[0]) ctx.fail("content-differs", fmt("dispatch called %s, model %s", vec(seen).c_str(), vec(md[0]).c_str()));
+	}
+	// after a failed dispatcher copy assignment the destination has to be valid; it may hold the old or the new listeners per prototype
+	void adoptDispatcher() {
+		std::vector<int> seen0, seen1;
+		g_seen = &seen0; d->dispatch(3, 1); g_seen = &seen1; d->dispatch(3, std::string("s")); g_seen = nullptr;
+		// "valid" is all the property asks of the destination (std::map assignment may have dropped the key, kept the old list or
+		// taken the new one): whatever it shows must consist of listeners it held or the source holds, none twice
+		for(int slot = 0; slot < 2; ++slot) {
+			const std::vector<int> & seen = slot ? seen1 : seen0;
+			for(size_t i = 0; i < seen.size(); ++i) {
+				bool known = std::find(md[slot].begin(), md[slot].end(), seen[i]) != md[slot].end() || std::find(mdother[slot].begin(), mdother[slot].end(), seen[i]) != mdother[slot].end();
+				bool twice = std::find(seen.begin() + i + 1, seen.end(), seen[i]) != seen.end();
+				if(!known || twice) ctx.fail("destination-invalid", fmt("after a failed dispatcher copy assignment the destination calls %s (old %s, source %s)", vec(seen).c_str(), vec(md[slot]).c_str(), vec(mdother[slot]).c_str()));
+			}
+		}
+		md[0] = seen0; md[1] = seen1;
 	}
 	void verify(const char * when) override {
-		std::vector<int> seen; g_seen = &seen; (*a)(1); g_seen = nullptr;
-		if(seen != ma) { ctx.fail("state-changed-by-failed-operation", fmt("%s: the heterogeneous list calls %s, the model holds %s", when, vec(seen).c_str(), vec(ma).c_str())); return; }
-		seen.clear(); g_seen = &seen; (*other)(1); g_seen = nullptr;
-		if(seen != mother) { ctx.fail("source-modified", "the source of the copies changed"); return; }
-		seen.clear(); g_seen = &seen; d->dispatch(3, 1); g_seen = nullptr;
-		if(seen != md) { ctx.fail("state-changed-by-failed-operation", fmt("%s: the heterogeneous dispatcher calls %s, the model holds %s", when, vec(seen).c_str(), vec(md).c_str())); return; }
-		int have = ledger().liveTotal(TC_CALLBACK, true), want = (int)(ma.size() + mother.size() + md.size());
+		std::vector<int> seen = showList(*a);
+		if(seen != both(ma)) { ctx.fail("state-changed-by-failed-operation", fmt("%s: the heterogeneous list calls %s, the model holds %s", when, vec(seen).c_str(), vec(both(ma)).c_str())); return; }
+		if(showList(*other) != both(mother) || showDisp(*dother) != both(mdother)) { ctx.fail("source-modified", "the source of the copies changed"); return; }
+		seen = showDisp(*d);
+		if(seen != both(md)) { ctx.fail("state-changed-by-failed-operation", fmt("%s: the heterogeneous dispatcher calls %s, the model holds %s", when, vec(seen).c_str(), vec(both(md)).c_str())); return; }
+		int have = ledger().liveTotal(TC_CALLBACK, true), want = (int)(both(ma).size() + both(mother).size() + both(md).size() + both(mdother).size());
 		if(have != want) ctx.fail("leak-or-loss", fmt("%s: %d callback objects alive, the containers hold %d", when, have, want));
 	}
-	std::string key() override { return fmt("%zu,%zu", ma.size(), md.size()); }
+	std::string key() override { return fmt("%zu.%zu,%zu.%zu", ma[0].size(), ma[1].size(), md[0].size(), md[1].size()); }
 };
 
 // ------------------------------------------------------------------ S5: adding through the remover utilities (strong guarantee)
